@@ -196,7 +196,9 @@ def run_harnesses(obls, tier="quick"):
         by_crate.setdefault(o["crate"], []).append(o)
     for crate, os_ in by_crate.items():
         names = [o["harness"] for o in os_]
-        run = cargo_kani(crate, names, jobs=min(MAX_JOBS, len(names)))
+        # DEFAULT_TIMEOUT is a budget per harness: a batch of n harnesses on j workers gets ceil(n / j) of them
+        jobs = min(MAX_JOBS, len(names))
+        run = cargo_kani(crate, names, timeout=DEFAULT_TIMEOUT * -(-len(names) // jobs), jobs=jobs)
         parsed = parse_output(run["out"])
         compile_err = re.search(r"^error(\[E\d+\])?:", run["out"], re.M) and not parsed
         # phase 2: every harness that did not come back SUCCESSFUL is re-run alone with the regular (per-check) output
